@@ -742,11 +742,153 @@ def worker(arg):
             if rr[0] == "ok" or rr[1] not in PYTEAL_ERRORS:
                 out["sem"].append({"kind": "type-mismatch-not-refused", "type": AB.arc4_str(ta), "t_json": ta, "source_type": AB.arc4_str(tb),
                                    "expected": "PyTeal error at construction", "real": "accepted" if rr[0] == "ok" else list(rr[1:])})
+    # 3h NamedTuple classes that share one qualified name (generic factory), resolved through annotations
+    NT_LEAVES = ["bool", "byte", ("uint", 16), ("uint", 32), ("uint", 64), "address", "string", "dynbytes", ("sbytes", 3), ("darr", ("uint", 8)),
+                 ("sarr", "bool", 9), ("tuple", "string", "bool")]
+    for g in range(12 if thorough else 3):
+        k = rng.choice([2, 2, 3])
+        groups = [[rng.choice(NT_LEAVES) for _ in range(rng.choice([1, 2, 2, 3]))] for _ in range(k)]
+        order = ["interleaved", "create-all-resolve-reverse", "create-all-resolve-forward-twice"][(g + shard) % 3]
+        rseed = rng.randrange(1 << 30)
+        try:
+            fs = named_class_scenario(pt, procs, groups, order, rseed, out)
+        except Exception as e:  # noqa
+            out["model_problems"].append("machinery exception in the named-class scenario: %s: %s" % (type(e).__name__, str(e)[:200]))
+            continue
+        bump(out, "named-class-scenarios")
+        for f in fs[:3]:
+            out["sem"].append(dict(f, scenario={"groups": groups, "order": order, "rseed": rseed}))
     out["hist"]["shard_s:%02d" % shard] = round(time.time() - t_start, 1)
     out["hist"]["phase_s:descr"] = round(t_descr - t_start, 1)
     out["hist"]["phase_s:behaviour"] = round(time.time() - t_descr, 1)
     procs.close()
     return out
+
+
+# ---------------------------------------------------------------------------------------------
+# NamedTuple CLASSES that share one qualified name (generic factory): every class must be described by ITS OWN fields
+# ---------------------------------------------------------------------------------------------
+def make_record(anns):
+    """the generic-factory idiom: every product is called `make_record.<locals>.Rec`"""
+    from pyteal import abi
+
+    class Rec(abi.NamedTuple):
+        __annotations__ = anns
+
+    return Rec
+
+
+def make_envelope(body_cls):
+    from pyteal import abi
+
+    class Env(abi.NamedTuple):
+        __annotations__ = {"tag": abi.Field[abi.Uint8], "body": abi.Field[body_cls]}
+
+    return Env
+
+
+def register_class(cls, names, ts):
+    """make the class reachable from a type term (c19_abi.to_pyteal instantiates class number c >= 1000 directly)"""
+    c = 1000 + len(AB._real_named)
+    AB._real_named[("__c06_shared__", c)] = c
+    AB._named_classes[c] = cls
+    return ("named", c, tuple(names)) + tuple(ts)
+
+
+def ref_descr(t):
+    import algosdk.abi as A
+    a = A.ABIType.from_string(AB.arc4_str(t))
+    return (str(a), a.is_dynamic(), None if a.is_dynamic() else a.byte_len())
+
+
+def named_class_scenario(pt, procs, groups, order, rseed, out=None):
+    """groups: field-type lists; one class per list, all with the same module-qualified name. Creation and resolution
+    are interleaved as `order` says. Every class, resolved through an annotation (directly, as abi.Field of an enclosing
+    NamedTuple, as a subroutine parameter / output), must have the descriptors of ITS OWN fields and set(...) of its own
+    fields must encode per ARC-4. Returns the list of failures (dicts)."""
+    import random
+    from pyteal import abi
+    rng = random.Random(rseed)
+    fails = []
+    classes = [None] * len(groups)
+    terms = [None] * len(groups)
+
+    def create(i):
+        ts = groups[i]
+        names = tuple("f%d" % k for k in range(len(ts)))
+        anns = {n: abi.Field[AB.to_pyteal(x).annotation_type()] for n, x in zip(names, ts)}
+        classes[i] = make_record(anns)
+        terms[i] = register_class(classes[i], names, ts)
+
+    def descr_fail(i, route, got, want_t):
+        want = ref_descr(want_t)
+        if got != want:
+            fails.append({"kind": "named-class-descriptor", "route": route, "class_index": i, "own_fields": [AB.arc4_str(x) for x in groups[i]],
+                          "real": list(got) if isinstance(got, tuple) else got, "expected": list(want),
+                          "same_name_classes": [[AB.arc4_str(x) for x in g] for g in groups]})
+
+    def norm(r):
+        if r[0] != "ok":
+            return ("raises",) + tuple(r[1:])
+        return (r[1][0], r[1][1], r[1][2] if isinstance(r[1][2], int) else None)
+
+    def resolve(i):
+        cls, t = classes[i], terms[i]
+        plain = ("tuple",) + tuple(groups[i])
+        r = call_real(lambda: real_descr(abi.type_spec_from_annotation(cls)))
+        descr_fail(i, "type_spec_from_annotation(cls)", norm(r), plain)
+        r = call_real(lambda: real_descr(cls().type_spec()))
+        descr_fail(i, "cls().type_spec()", norm(r), plain)
+        env = make_envelope(cls)
+        envt = ("tuple", ("uint", 8), plain)
+        r = call_real(lambda: real_descr(abi.type_spec_from_annotation(env)))
+        descr_fail(i, "abi.Field[cls] inside an enclosing NamedTuple", norm(r), envt)
+
+        def fn(x, *, output):
+            return output.set(x)
+        fn.__name__ = "f"
+        fn.__annotations__ = {"x": cls, "output": cls, "return": pt.Expr}
+        r = call_real(lambda: pt.ABIReturnSubroutine(fn).method_signature())
+        want_sig = "f(%s)%s" % (AB.arc4_str(plain), AB.arc4_str(plain))
+        if r[0] != "ok" or r[1] != want_sig:
+            fails.append({"kind": "named-class-descriptor", "route": "subroutine parameter / output annotation", "class_index": i,
+                          "own_fields": [AB.arc4_str(x) for x in groups[i]], "real": r[1] if r[0] == "ok" else list(r[1:]), "expected": want_sig,
+                          "same_name_classes": [[AB.arc4_str(x) for x in g] for g in groups]})
+        # behaviour: set(...) of its own fields, the class reached through annotations (ABI output / parameters) and directly
+        envterm = register_class(env, ("tag", "body"), (("uint", 8), t))
+        for (tt, cfgs) in ((t, [("abiret", 8, None), ("members_as_args", 9, None), ("main", 6, None)]), (envterm, [("abiret", 10, None), ("main", 7, None)])):
+            alloc = CB.Alloc()
+            rec = CB.gen_recipe(tt, rng, alloc, p_expr=0.5, p_copy=0.0)
+            ins = gen_inputs_for(rng, alloc, 1, 0)
+            for (be, v, opt) in cfgs:
+                c, results = eval_case(pt, procs.avm, procs.mod, tt, rec, be, v, ins, opt)
+                for (ints, byts), res in zip(ins, results):
+                    if out is not None:
+                        out["evaluations"] += 1
+                        bump(out, "named-class:" + str(res.get("status")))
+                        out["keys"].append("namedclass:" + repr((AB.arc4_str(tt), rec, be, v, ints, byts, len(groups))))
+                    if res.get("status") == "BAD":
+                        fails.append(dict(case_record(tt, rec, be, v, opt, ints, byts, res), kind="named-class-behaviour", class_index=i,
+                                          same_name_classes=[[AB.arc4_str(x) for x in g] for g in groups]))
+
+    n = len(groups)
+    if order == "interleaved":
+        for i in range(n):
+            create(i)
+            resolve(i)
+        for i in range(n):
+            resolve(i)
+    elif order == "create-all-resolve-reverse":
+        for i in range(n):
+            create(i)
+        for i in reversed(range(n)):
+            resolve(i)
+    else:  # create-all-resolve-forward-twice
+        for i in range(n):
+            create(i)
+        for i in list(range(n)) * 2:
+            resolve(i)
+    return fails
 
 
 def named_variant(rng, t):
@@ -787,6 +929,18 @@ def load_corpus():
 def replay(path):
     ent = json.load(open(path))
     import pyteal as pt
+    if str(ent.get("kind", "")).startswith("named-class") and "scenario" in ent:
+        sc = ent["scenario"]
+        groups = [[from_json(x) for x in g] for g in sc["groups"]]
+        fs = named_class_scenario(pt, Procs(), groups, sc["order"], sc["rseed"])
+        print("classes sharing the name make_record.<locals>.Rec, fields in creation order: %s; order %s" % ([[AB.arc4_str(x) for x in g] for g in groups], sc["order"]))
+        for f in fs[:6]:
+            print("  class #%s %s via %s: real %s, expected %s" % (f.get("class_index"), f.get("own_fields", f.get("type")), f.get("route", f.get("backend")), f.get("real"), f.get("expected")))
+        if fs:
+            print("VIOLATION property=C06 replay=%s" % path)
+            return 1
+        print("status: good")
+        return 0
     if ent.get("kind") not in ("behaviour", "model-vs-real") or "t_json" not in ent:
         print("replay file has no single executable case (kind=%s): %s" % (ent.get("kind"), str(ent.get("what", ""))[:300]))
         return 2
@@ -890,6 +1044,13 @@ def main(argv):
             reported += 1
         avm.close()
         mod.close()
+    nc = [f for f in other if str(f.get("kind", "")).startswith("named-class")]
+    other = [f for f in other if not str(f.get("kind", "")).startswith("named-class")]
+    for f in nc[:3]:
+        ck.violation("NamedTuple classes sharing one qualified name: class #%s with fields %s resolved through %s is described / encoded as %s, expected %s (classes of that name, in creation order: %s)" % (
+            f.get("class_index"), f.get("own_fields", f.get("type")), f.get("route", f.get("backend")), f.get("real"), f.get("expected"), f.get("same_name_classes")),
+            to_json_record(f))
+        reported += 1
     for f in sorted(other, key=lambda f: AB.size(from_json(to_json(f["t_json"]))) if "t_json" in f else 0)[:5]:
         ck.violation("%s: %s: PyTeal %s, reference %s" % (f.get("kind"), f.get("type", f.get("t")), f.get("real"), f.get("algosdk", f.get("expected"))), to_json_record(f))
         reported += 1
